@@ -64,7 +64,11 @@ def run(entries, n_per_entry, seed, tag="corr", maxn=60, rtol=1e-9, junk_fill=0.
                                 shapes=(int(np.size(a)), int(np.size(b)))))
                 break
         # purity (C16): arguments bit-identical after the call
-        for a0, a1 in zip(args0, c["args"]):
+        sig = sigs[c["entry"]]
+        allowed = {i for i, (pn, _) in enumerate(sig["params"]) if pn in sig.get("mutates", [])}
+        for k, (a0, a1) in enumerate(zip(args0, c["args"])):
+            if k in allowed:
+                continue  # documented in-place helper (private; every caller passes a freshly allocated buffer: checked by the translator)
             if a0 is not None and not np.isscalar(a0) and not np.array_equal(a0, a1, equal_nan=True):
                 dis.append(dict(id=rid, kind="argument-mutated"))
         if len(samples) < 3:
